@@ -415,3 +415,42 @@ def ob_block_sections_bytes(k: int, c1: int, latin: bool) -> bool:
 
 OBLIGATIONS.append(Ob('block_sections_bytes', ob_block_sections_bytes, ['0 <= k < %d' % len(GLUE_KEYS), '0 <= c1 <= 0x10FFFF'], timeout=tier(250, 900),
                       data='one code point (any value) of the inserted text, encoding bit', selectors='templates %r' % {k: v[0] for k, v in T_GLUE.items()}))
+
+
+# ---------------------------------------------------------------- wave 4: exception objects are inserted as their MESSAGE in every form
+class Wrapped(Exception):
+    pass
+
+
+T_EXC_FORMS = HTML('<dtml-var "d[\'k\']">|<dtml-var "d[\'k\']" html_quote>|<dtml-var "d[\'k\']" size=999>|<dtml-var "d[\'k\']" null="(unknown)">|<dtml-var "d[\'k\']" html_quote null="">|'
+                   '<dtml-var "d[\'k\']" upper>|<dtml-try><dtml-var "missing[\'zebra<\']"><dtml-except KeyError><dtml-var error_value>|<dtml-var error_value null="-">|<dtml-var error_value size=99 html_quote></dtml-try>')
+T_EXC_FORMS.cook()
+T_EXC_FORMS_S = String('%(x)s|%(x null="-")s|%(x html_quote size=99)s')
+T_EXC_FORMS_S.cook()
+MSGS = ['zebra<', '', "it's", 'é&']
+
+
+def ob_exception_forms(j: int, kind: int) -> bool:
+    """KeyError('m'), ValueError('m'), a user exception, an exception wrapping another: inserted plainly, quoted, with size= / null= / a
+    modifier, and as error_value inside an except handler - always the message text (never repr-style quotes)"""
+    m = MSGS[pick(j, len(MSGS))]
+    k = pick(kind, 4)
+    with NoTracing():
+        v = [KeyError, ValueError, MyErr, Wrapped][k](m)
+        e = ref_escape(m)
+        out = T_EXC_FORMS(d={'k': v}, missing={})
+        if m == '':
+            want_null, want_hqnull = '(unknown)', ''
+        else:
+            want_null, want_hqnull = m, e
+        # an exception object is "null" only if it is false; exceptions are always true, so null= never applies
+        want_null, want_hqnull = m, e
+        want = '|'.join([m, e, m, want_null, want_hqnull, m.upper(), 'zebra<', 'zebra<', 'zebra&lt;'])
+        if out != want:
+            return False
+        return T_EXC_FORMS_S(x=v) == m + '|' + m + '|' + e
+
+
+OBLIGATIONS.append(Ob('exception_values_all_forms', ob_exception_forms, ['0 <= j < %d' % len(MSGS), '0 <= kind < 4'], timeout=tier(150, 400), path_timeout=60, data='-',
+                      selectors='KeyError / ValueError / user exception / wrapping exception with a message from %r, through nine insertion forms incl. error_value in a handler, HTML and EPFS' % MSGS,
+                      stubs='render runs untraced once the selectors are fixed on the path'))
